@@ -17,11 +17,14 @@ Init == \E fs \in Files : cs = [seed |-> fs]
 IsSeed == "seed" \in DOMAIN cs
 Next == /\ IsSeed
         /\ \E penv \in {Unset, V("p")} : \E entry \in {"none", "value", "empty", "valueless"} : \E discard \in BOOLEAN :
-           \E lfs \in LabelFiles : \E lentry \in {"none", "value"} :
+           \E lfs \in LabelFiles : \E lentry \in {"none", "value"} : \E repeat \in BOOLEAN :
              /\ (Product \/ lfs = <<>> \/ (entry = "none" /\ ~discard))
+             \* repeat: the first env file is listed once more at the end (entries in order: it then overrides the files in between)
+             /\ (repeat => Len(cs.seed) >= 2 /\ cs.seed[1].state = "present" /\ lfs = <<>> /\ ~discard)
              /\ cs' = [penv |-> penv, files |-> cs.seed, entry |-> entry, discard |-> discard, lfiles |-> lfs, lentry |-> lentry,
                     error |-> MissingRequired(cs.seed) \/ MissingRequired(lfs),
-                    k |-> FinalK(penv, cs.seed, entry), r |-> FinalR(penv, cs.seed), label |-> FinalLabel(lfs, lentry), labelr |-> FinalLabelR(lfs),
+                    repeat |-> repeat,
+                    k |-> FinalK(penv, IF repeat THEN cs.seed \o <<cs.seed[1]>> ELSE cs.seed, entry), r |-> FinalR(penv, IF repeat THEN cs.seed \o <<cs.seed[1]>> ELSE cs.seed), label |-> FinalLabel(lfs, lentry), labelr |-> FinalLabelR(lfs),
                     \* service b: its own first file, then a's last one
                     kb |-> FinalK(penv, OwnThenShared("fb", cs.seed), "none"), rb |-> FinalR(penv, OwnThenShared("fb", cs.seed)),
                     labelb |-> LastDef(OwnThenShared("lb", lfs)), labelrb |-> FinalLabelR(OwnThenShared("lb", lfs))]
